@@ -74,6 +74,8 @@ const POSITIONS: &[(&str, &str)] = &[
     ("after-rule-and-import", ".r{k:v}@import \"z\";"),
     // the same file imported twice (the prefix is the same import without conditions): two placeholders
     ("after-the-same-import", "<the same import>"),
+    // a byte order mark is not part of the sheet: the import is the first rule
+    ("after-byte-order-mark", "\u{FEFF}"),
 ];
 
 fn percent_decode(s: &str) -> Option<String> {
@@ -185,12 +187,14 @@ fn check(c: &Case) -> Result<Option<Vec<(String, String)>>, String> {
     let mut problems = vec![];
     let mut exp: Vec<T> = vec![];
     if !c.sign {
-        exp = passthrough(if conv { &c.text[POSITIONS[c.pos].1.len()..] } else { &c.text }, &opts);
+        exp = passthrough(if conv { &c.text[POSITIONS[c.pos].1.len()..] } else { c.text.strip_prefix('\u{FEFF}').unwrap_or(&c.text) }, &opts);
     } else {
         if c.pos == 1 {
             exp.push(T::Comment("I z".into()));
         } else if POSITIONS[c.pos].0 == "after-the-same-import" {
             exp.push(T::Comment("<placeholder>".into()));
+        } else if POSITIONS[c.pos].0 == "after-byte-order-mark" {
+            // nothing of the mark reaches the output
         } else if POSITIONS[c.pos].0 == "after-rule-and-import" {
             exp.extend(passthrough(".r{k:v}", &opts));
             exp.push(T::Comment("I z".into()));
@@ -258,7 +262,7 @@ fn check(c: &Case) -> Result<Option<Vec<(String, String)>>, String> {
         if c.pos == 0 && flagged != 0 {
             problems.push(("import-at-top-flagged".into(), format!("{} warnings", flagged)));
         }
-        let misplaced = if c.pos < 2 { 0 } else if POSITIONS[c.pos].0 == "after-rule-and-import" { 2 } else { 1 };
+        let misplaced = if c.pos < 2 || POSITIONS[c.pos].0 == "after-byte-order-mark" { 0 } else if POSITIONS[c.pos].0 == "after-rule-and-import" { 2 } else { 1 };
         // (whether an import that follows only imports is flagged is not asserted)
         if c.pos >= 2 && POSITIONS[c.pos].0 != "after-the-same-import" && flagged != misplaced {
             problems.push(("import-after-rule-not-flagged".into(), format!("position {}: {} imports stand after another rule, {} are flagged", POSITIONS[c.pos].0, misplaced, flagged)));
